@@ -792,6 +792,16 @@ func (ch *verifChange) fault() string {
 	return ch.plan.faultName()
 }
 
+// withLock runs f with the state lock held and releases it also when snapd
+// code panics inside (the panic becomes a <prop>/panic violation; a lock left
+// behind would hang the tear-down).
+func (e *verifEnv) withLock(f func()) {
+	st := e.in.st
+	st.Lock()
+	defer st.Unlock()
+	f()
+}
+
 func (e *verifEnv) statusLine(chgID string) string {
 	st := e.in.st
 	st.Lock()
@@ -878,14 +888,14 @@ func (e *verifEnv) submit(label string, overlapping bool, withFault bool, step i
 		p := canConnect[c.Draw("op.pair", len(canConnect))]
 		ch.targets = []string{p.id()}
 		ch.summary = "connect " + p.id()
-		st.Lock()
-		ts, err := ifacestate.Connect(st, p.ps, p.pn, p.ss, p.sn)
-		st.Unlock()
-		if err != nil {
-			apiErr = err
-		} else {
-			tss = append(tss, ts)
-		}
+		e.withLock(func() {
+			ts, err := ifacestate.Connect(st, p.ps, p.pn, p.ss, p.sn)
+			if err != nil {
+				apiErr = err
+			} else {
+				tss = append(tss, ts)
+			}
+		})
 	case "disconnect", "forget":
 		forget := opk == "forget"
 		cands := canDisconnect
@@ -894,50 +904,47 @@ func (e *verifEnv) submit(label string, overlapping bool, withFault bool, step i
 		}
 		p := cands[c.Draw("op.pair", len(cands))]
 		ch.summary = opk + " " + p.id()
-		st.Lock()
-		var refs []*interfaces.ConnRef
-		var err error
-		if c.Chance("op.short-form", 1, 4) {
-			// snap disconnect <snap>:<plug>: every connection of the plug
-			ch.summary = opk + " " + p.ps + ":" + p.pn
-			refs, err = e.in.mgr.ResolveDisconnect(p.ps, p.pn, "", "", forget)
-			sort.Slice(refs, func(i, j int) bool { return refs[i].ID() < refs[j].ID() })
-			if len(refs) > 1 {
-				c.Count("probe:multi-connection-disconnect")
-			}
-		} else {
-			refs, err = e.in.mgr.ResolveDisconnect(p.ps, p.pn, p.ss, p.sn, forget)
-		}
-		if err != nil {
-			apiErr = err
-			st.Unlock()
-			break
-		}
-		for _, ref := range refs {
-			var ts *state.TaskSet
-			if forget {
-				if _, cerr := repo.Connection(ref); cerr != nil {
-					c.Count("probe:forget-inactive-connection")
+		e.withLock(func() {
+			var refs []*interfaces.ConnRef
+			var err error
+			if c.Chance("op.short-form", 1, 4) {
+				// snap disconnect <snap>:<plug>: every connection of the plug
+				ch.summary = opk + " " + p.ps + ":" + p.pn
+				refs, err = e.in.mgr.ResolveDisconnect(p.ps, p.pn, "", "", forget)
+				sort.Slice(refs, func(i, j int) bool { return refs[i].ID() < refs[j].ID() })
+				if len(refs) > 1 {
+					c.Count("probe:multi-connection-disconnect")
 				}
-				ts, err = ifacestate.Forget(st, repo, ref)
 			} else {
-				var conn *interfaces.Connection
-				conn, err = repo.Connection(ref)
-				if err == nil {
-					ts, err = ifacestate.Disconnect(st, conn)
-				}
+				refs, err = e.in.mgr.ResolveDisconnect(p.ps, p.pn, p.ss, p.sn, forget)
 			}
 			if err != nil {
 				apiErr = err
-				break
+				return
 			}
-			tss = append(tss, ts)
-			ch.targets = append(ch.targets, ref.ID())
-		}
-		st.Unlock()
-		if apiErr != nil {
-			tss = nil
-		}
+			for _, ref := range refs {
+				var ts *state.TaskSet
+				if forget {
+					if _, cerr := repo.Connection(ref); cerr != nil {
+						c.Count("probe:forget-inactive-connection")
+					}
+					ts, err = ifacestate.Forget(st, repo, ref)
+				} else {
+					var conn *interfaces.Connection
+					conn, err = repo.Connection(ref)
+					if err == nil {
+						ts, err = ifacestate.Disconnect(st, conn)
+					}
+				}
+				if err != nil {
+					apiErr = err
+					tss = nil
+					return
+				}
+				tss = append(tss, ts)
+				ch.targets = append(ch.targets, ref.ID())
+			}
+		})
 	case "install":
 		name := canInstall[c.Draw("op.snap", len(canInstall))]
 		ch.summary = "install " + name
@@ -946,23 +953,22 @@ func (e *verifEnv) submit(label string, overlapping bool, withFault bool, step i
 			apiErr = fmt.Errorf("snap %q is already installed", name)
 			break
 		}
-		st.Lock()
-		if err := snapstate.CheckChangeConflict(st, name, nil); err != nil {
-			apiErr = err
-			st.Unlock()
-			break
-		}
-		snapsup := &snapstate.SnapSetup{SideInfo: verifSideInfo(name)}
-		sp := st.NewTask("setup-profiles", "setup profiles of "+name)
-		sp.Set("snap-setup", snapsup)
-		ln := st.NewTask("link-snap", "link "+name)
-		ln.Set("snap-setup-task", sp.ID())
-		ln.WaitFor(sp)
-		ac := st.NewTask("auto-connect", "auto-connect "+name)
-		ac.Set("snap-setup-task", sp.ID())
-		ac.WaitFor(ln)
-		tss = append(tss, state.NewTaskSet(sp, ln, ac))
-		st.Unlock()
+		e.withLock(func() {
+			if err := snapstate.CheckChangeConflict(st, name, nil); err != nil {
+				apiErr = err
+				return
+			}
+			snapsup := &snapstate.SnapSetup{SideInfo: verifSideInfo(name)}
+			sp := st.NewTask("setup-profiles", "setup profiles of "+name)
+			sp.Set("snap-setup", snapsup)
+			ln := st.NewTask("link-snap", "link "+name)
+			ln.Set("snap-setup-task", sp.ID())
+			ln.WaitFor(sp)
+			ac := st.NewTask("auto-connect", "auto-connect "+name)
+			ac.Set("snap-setup-task", sp.ID())
+			ac.WaitFor(ln)
+			tss = append(tss, state.NewTaskSet(sp, ln, ac))
+		})
 	case "remove":
 		name := canRemove[c.Draw("op.snap", len(canRemove))]
 		ch.summary = "remove " + name
@@ -972,31 +978,30 @@ func (e *verifEnv) submit(label string, overlapping bool, withFault bool, step i
 			break
 		}
 		legacy := c.Chance("op.legacy-discard-conns", 1, 4)
-		st.Lock()
-		if err := snapstate.CheckChangeConflict(st, name, nil); err != nil {
-			apiErr = err
-			st.Unlock()
-			break
-		}
-		snapsup := &snapstate.SnapSetup{SideInfo: verifSideInfo(name)}
-		ad := st.NewTask("auto-disconnect", "disconnect interfaces of "+name)
-		ad.Set("snap-setup", snapsup)
-		prev := ad
-		all := []*state.Task{ad}
-		tkinds := []string{"unlink-snap", "remove-profiles", "discard-snap"}
-		if legacy {
-			tkinds = append(tkinds, "discard-conns")
-			ch.summary += " (+discard-conns)"
-		}
-		for _, k := range tkinds {
-			t := st.NewTask(k, k+" "+name)
-			t.Set("snap-setup-task", ad.ID())
-			t.WaitFor(prev)
-			prev = t
-			all = append(all, t)
-		}
-		tss = append(tss, state.NewTaskSet(all...))
-		st.Unlock()
+		e.withLock(func() {
+			if err := snapstate.CheckChangeConflict(st, name, nil); err != nil {
+				apiErr = err
+				return
+			}
+			snapsup := &snapstate.SnapSetup{SideInfo: verifSideInfo(name)}
+			ad := st.NewTask("auto-disconnect", "disconnect interfaces of "+name)
+			ad.Set("snap-setup", snapsup)
+			prev := ad
+			all := []*state.Task{ad}
+			tkinds := []string{"unlink-snap", "remove-profiles", "discard-snap"}
+			if legacy {
+				tkinds = append(tkinds, "discard-conns")
+				ch.summary += " (+discard-conns)"
+			}
+			for _, k := range tkinds {
+				t := st.NewTask(k, k+" "+name)
+				t.Set("snap-setup-task", ad.ID())
+				t.WaitFor(prev)
+				prev = t
+				all = append(all, t)
+			}
+			tss = append(tss, state.NewTaskSet(all...))
+		})
 	default: // restart between changes
 		c.Logf("%s: restart", label)
 		e.restart("idle", nil)
@@ -1092,9 +1097,18 @@ func (e *verifEnv) driveAll(first *verifChange, overlapAt int, faultsOn bool) ([
 		for _, ch := range active {
 			p := ch.plan
 			if p.kind == verifFaultAbort && !p.fired && step-ch.born == p.at+1 {
-				st.Lock()
-				st.Change(ch.id).Abort()
-				st.Unlock()
+				// like the daemon: a change with nothing pending cannot be aborted
+				isReady := false
+				e.withLock(func() {
+					chg := st.Change(ch.id)
+					isReady = chg.IsReady()
+					if !isReady {
+						chg.Abort()
+					}
+				})
+				if isReady {
+					continue
+				}
 				p.fired = true
 				c.Count("fault:abort")
 				if g != nil {
